@@ -165,7 +165,7 @@ add('C20',
     jobs=[job('parsers', 'c20_parsers.cpp', shards={'quick': 8, 'thorough': 16}, hang_is_violation=True),
           job('fuzz', 'fuzz_parsers.cpp', flavour='fuzz', tiers=('thorough',), shards={'thorough': 12}, fuzz_runs={'thorough': 5000000}, dict='fuzz_parsers.dict', max_len=64, timeout=3000)],
     min_evaluations={'quick': 300000, 'thorough': 3000000},
-    min_counters={'printf_completed': 50000, 'printf_stopped_by_assertion': 10000, 'fmt_completed': 50000, 'cmdline_completed': 50000, 'cmdline_stopped_by_assertion': 100, 'to_number_value': 10000, 'to_number_null': 10000},
+    min_counters={'printf_completed': 50000, 'printf_stopped_by_assertion': 10000, 'fmt_completed': 50000, 'cmdline_completed': 50000, 'cmdline_stopped_by_assertion': 100, 'to_number_value': 10000, 'to_number_null': 10000, 'printf_long_number_cases': 500},
     assumptions=['memory safety is observed by ASan red zones around exact-size heap buffers (inputs, option targets, positional arg_list of NL_ARGMAX entries, variadic slots) and UBSan; non-adjacent wild accesses into other live memory are not observable',
                  'widths/precisions above 100000 are exercised in a handful of cases only (they are an output-volume question, not a parsing one)'],
     )
